@@ -710,10 +710,11 @@ def _psd_stream(ctx, rs, drv, systems, worst):
         drm = [_dec(x) for x in spec["drm"]]
         q = [x for x in drm if x is not None][0].shape[0]
         p = _dec(spec["t_frc"]).shape[1]
-        line = "psd %s %s %d %s %s %d %s %s" % (
+        line = "psd %s %s %d %s %s %d %s %s %s" % (
             solver, hdr, p, _bits_c(_dec(spec["t_frc"])), _bits_r(_dec(spec["forcepsd"])), q,
             " ".join("1" if x is not None else "0" for x in drm),
-            " ".join(_bits_c(x) for x in drm if x is not None))
+            " ".join(_bits_c(x) for x in drm if x is not None),
+            _bits_r([spec.get("rbduf", 1.0), spec.get("elduf", 1.0)]))
         jobs.append((spec, res, " ".join(line.split()), q, einfo))
     reps = drv.ask([j[2] for j in jobs])
     for (spec, res, line, q, einfo), rep in zip(jobs, reps):
